@@ -298,6 +298,37 @@ def describe(v):
     return ' '.join(p for p in parts if p)
 
 
+def neighbourhoods(info, n, rnd, npos=2):
+    """n (literal, positions) pairs: doctest-valid presentations of the module (own + sibling-derived) with `npos` seed-chosen
+    positions to be made fully symbolic; used as cheap, deep units next to the fully symbolic ones"""
+    lits = [r for r, v in info['valid'] if len(r) >= 2] + [r for r, v in info.get('valid_ext', []) if len(r) >= 2]
+    out = []
+    if not lits:
+        return out
+    for k in range(n):
+        lit = lits[rnd.randrange(len(lits))] if k >= len(lits) else rnd.sample(lits, len(lits))[0]
+        pos = sorted(rnd.sample(range(len(lit)), min(npos, len(lit))))
+        out.append((lit, pos))
+    return out
+
+
+def sym_input(E, unit, name='s'):
+    """the symbolic input of a unit: fully symbolic string of length L (optional concrete prefix / charset), or the
+    neighbourhood of a literal (unit['literal'], unit['positions'])"""
+    lo, hi = unit.get('charset', (0, 0x10ffff))
+    if unit.get('literal') is not None:
+        s0, chars = E.symstr(len(unit['positions']), name, lo, hi)
+        cs = [ord(ch) for ch in unit['literal']]
+        for p, c in zip(unit['positions'], chars):
+            cs[p] = c
+        return E.SStr(cs), chars
+    x, chars = E.symstr(unit['L'], name, lo, hi)
+    pre = unit.get('prefix')
+    if pre:
+        x = E.SStr([ord(c) for c in pre] + chars[len(pre):])
+    return x, chars
+
+
 def shuffle_units(units):
     r = random.Random(seed())
     units = list(units)
